@@ -5,35 +5,39 @@ use crate::error::IoError;
 use crate::io::{IoBase, Read, Seek, SeekFrom, Write};
 
 /// A fixed-size in-memory stream with arbitrary (symbolic) initial content: used for the codecs
-/// ("for all N-byte blocks ..."). Reads/writes may be short at the end like a real device.
-pub(crate) struct MemDev<const N: usize> {
+/// ("for all N-byte blocks ..."). Generic in the error type because some decoders want `Error<E>` streams.
+pub(crate) struct MemDevG<const N: usize, E> {
     pub data: [u8; N],
     pub pos: usize,
     pub writes: usize,
     pub flushes: usize,
+    ph: core::marker::PhantomData<E>,
 }
 
-impl<const N: usize> MemDev<N> {
+pub(crate) type MemDev<const N: usize> = MemDevG<N, ()>;
+pub(crate) type MemDevE<const N: usize> = MemDevG<N, crate::error::Error<()>>;
+
+impl<const N: usize, E> MemDevG<N, E> {
     pub fn any() -> Self {
-        Self { data: kani::any(), pos: 0, writes: 0, flushes: 0 }
+        Self { data: kani::any(), pos: 0, writes: 0, flushes: 0, ph: core::marker::PhantomData }
     }
     pub fn zeroed() -> Self {
-        Self { data: [0u8; N], pos: 0, writes: 0, flushes: 0 }
+        Self { data: [0u8; N], pos: 0, writes: 0, flushes: 0, ph: core::marker::PhantomData }
     }
     pub fn from(data: [u8; N]) -> Self {
-        Self { data, pos: 0, writes: 0, flushes: 0 }
+        Self { data, pos: 0, writes: 0, flushes: 0, ph: core::marker::PhantomData }
     }
 }
 
-impl<const N: usize> IoBase for MemDev<N> {
-    type Error = ();
+impl<const N: usize, E: IoError> IoBase for MemDevG<N, E> {
+    type Error = E;
 }
 
-impl<const N: usize> Read for MemDev<N> {
+impl<const N: usize, E: IoError> Read for MemDevG<N, E> {
     // The whole request is always served (the stream is assumed long enough: harnesses size N to what the
     // code under proof consumes and assert the final position, so the assumption cannot hide anything).
     // This keeps the returned count concrete: no loop bound ever depends on a symbolic position.
-    fn read(&mut self, buf: &mut [u8]) -> Result<usize, ()> {
+    fn read(&mut self, buf: &mut [u8]) -> Result<usize, E> {
         let n = buf.len();
         kani::assume(self.pos + n <= N);
         let mut i = 0;
@@ -46,8 +50,8 @@ impl<const N: usize> Read for MemDev<N> {
     }
 }
 
-impl<const N: usize> Write for MemDev<N> {
-    fn write(&mut self, buf: &[u8]) -> Result<usize, ()> {
+impl<const N: usize, E: IoError> Write for MemDevG<N, E> {
+    fn write(&mut self, buf: &[u8]) -> Result<usize, E> {
         let n = buf.len();
         kani::assume(self.pos + n <= N);
         let mut i = 0;
@@ -59,22 +63,20 @@ impl<const N: usize> Write for MemDev<N> {
         self.writes += 1;
         Ok(n)
     }
-    fn flush(&mut self) -> Result<(), ()> {
+    fn flush(&mut self) -> Result<(), E> {
         self.flushes += 1;
         Ok(())
     }
 }
 
-impl<const N: usize> Seek for MemDev<N> {
-    fn seek(&mut self, pos: SeekFrom) -> Result<u64, ()> {
+impl<const N: usize, E: IoError> Seek for MemDevG<N, E> {
+    fn seek(&mut self, pos: SeekFrom) -> Result<u64, E> {
         let np: i128 = match pos {
             SeekFrom::Start(x) => x as i128,
             SeekFrom::Current(x) => self.pos as i128 + x as i128,
             SeekFrom::End(x) => N as i128 + x as i128,
         };
-        if np < 0 || np > N as i128 {
-            return Err(());
-        }
+        kani::assume(np >= 0 && np <= N as i128);
         self.pos = np as usize;
         Ok(np as u64)
     }
@@ -110,7 +112,7 @@ impl IoError for DevErr {
     }
 }
 
-pub(crate) const LOG_N: usize = 12;
+pub(crate) const LOG_N: usize = 16;
 
 #[derive(Clone, Copy, PartialEq, Eq, Debug)]
 pub(crate) enum Op {
@@ -138,6 +140,24 @@ pub(crate) struct NdDev {
     pub nflush: usize,
     pub last_write_byte: u8,
     pub all_written_zero: bool,
+    /// the (up to 4) bytes returned by the most recent read call, and the total number of device calls
+    pub last_read: [u8; 4],
+    pub ncalls: usize,
+    /// device-call budget (0 = none): exceeding it is reported as non-termination
+    pub budget: usize,
+    /// "table mode": from the n-th read call on every byte returned is 0xFF (an end-of-chain entry in every
+    /// FAT width), so that chains revealed by the device are finite (0 = off)
+    pub eoc_after: usize,
+    pub nreads: usize,
+    /// large-buffer mode: reads of more than 4 bytes do not touch the buffer (its content is irrelevant to
+    /// address/length contracts) and may be short by any amount, so buffer lengths can be fully symbolic
+    pub nofill: bool,
+    /// predicate assumed of every small (<= 4 byte) read: (position, bytes, length) -> allowed.
+    /// Used to state "cluster pointers on the volume are valid" as an assumption on device content.
+    pub small_read_ok: Option<fn(u64, [u8; 4], usize) -> bool>,
+    /// `last_read` is recorded only for reads starting in [track_lo, track_hi) (default: everywhere)
+    pub track_lo: u64,
+    pub track_hi: u64,
 }
 
 impl NdDev {
@@ -156,6 +176,15 @@ impl NdDev {
             nflush: 0,
             last_write_byte: 0,
             all_written_zero: true,
+            last_read: [0; 4],
+            ncalls: 0,
+            budget: 0,
+            eoc_after: 0,
+            nreads: 0,
+            nofill: false,
+            small_read_ok: None,
+            track_lo: 0,
+            track_hi: u64::MAX,
         }
     }
     pub fn faulty() -> Self {
@@ -177,6 +206,10 @@ impl NdDev {
         }
     }
     fn maybe_fault(&mut self) -> Result<(), DevErr> {
+        self.ncalls += 1;
+        if self.budget > 0 {
+            assert!(self.ncalls <= self.budget, "device-call budget exceeded: the operation does not terminate");
+        }
         if self.faults && kani::any() {
             let tag: u8 = kani::any();
             kani::assume(tag != EOF_TAG && tag != WZ_TAG);
@@ -237,13 +270,35 @@ impl Read for NdDev {
     fn read(&mut self, buf: &mut [u8]) -> Result<usize, DevErr> {
         self.maybe_fault()?;
         let mut n = buf.len();
+        if self.nofill && n > 4 {
+            let k: usize = kani::any();
+            kani::assume(k <= n);
+            self.push(Op::Read(self.pos, n));
+            self.pos += k as u64;
+            return Ok(k);
+        }
         if self.short_io && n > 1 && kani::any() {
             n = 1;
         }
+        self.nreads += 1;
+        let all_ff = self.eoc_after > 0 && self.nreads >= self.eoc_after;
+        let track = self.pos >= self.track_lo && self.pos < self.track_hi;
+        let mut small = [0u8; 4];
         let mut i = 0;
         while i < n {
-            buf[i] = kani::any();
+            buf[i] = if all_ff { 0xFF } else { kani::any() };
+            if i < 4 {
+                small[i] = buf[i];
+            }
             i += 1;
+        }
+        if track {
+            self.last_read = small;
+        }
+        if n <= 4 {
+            if let Some(f) = self.small_read_ok {
+                kani::assume(f(self.pos, small, n));
+            }
         }
         self.push(Op::Read(self.pos, n));
         self.pos += n as u64;
@@ -259,14 +314,22 @@ impl Write for NdDev {
         if self.short_io && n > 1 && kani::any() {
             n = 1;
         }
+        if self.nofill && n > 4 {
+            let k: usize = kani::any();
+            kani::assume(k <= n);
+            self.push(Op::Write(self.pos, n));
+            self.nwrites += 1;
+            self.pos += k as u64;
+            return Ok(k);
+        }
         if n > 0 {
             self.last_write_byte = buf[0];
-            let mut i = 0;
-            while i < n {
-                if buf[i] != 0 {
-                    self.all_written_zero = false;
-                }
-                i += 1;
+            // zero-ness of everything written is tracked through ONE symbolic index per call
+            // (sound for "all bytes written are zero": the index is universally quantified)
+            let j: usize = kani::any();
+            kani::assume(j < n);
+            if buf[j] != 0 {
+                self.all_written_zero = false;
             }
         }
         self.push(Op::Write(self.pos, n));
@@ -294,5 +357,40 @@ impl Seek for NdDev {
         self.pos = np as u64;
         self.push(Op::Seek(self.pos));
         Ok(self.pos)
+    }
+}
+
+use crate::time::{Date, DateTime, Time, TimeProvider};
+
+/// Time provider returning one symbolic but valid DateTime (chosen once per harness).
+#[derive(Debug, Clone, Copy)]
+pub(crate) struct SymTime {
+    pub dt: DateTime,
+}
+
+pub(crate) fn any_valid_date() -> Date {
+    let (y, m, d): (u16, u16, u16) = (kani::any(), kani::any(), kani::any());
+    kani::assume(y >= 1980 && y <= 2107 && m >= 1 && m <= 12 && d >= 1 && d <= 31);
+    Date::new(y, m, d)
+}
+
+pub(crate) fn any_valid_time() -> Time {
+    let (h, mi, s, ms): (u16, u16, u16, u16) = (kani::any(), kani::any(), kani::any(), kani::any());
+    kani::assume(h <= 23 && mi <= 59 && s <= 59 && ms <= 999);
+    Time::new(h, mi, s, ms)
+}
+
+impl SymTime {
+    pub fn any() -> Self {
+        SymTime { dt: DateTime::new(any_valid_date(), any_valid_time()) }
+    }
+}
+
+impl TimeProvider for SymTime {
+    fn get_current_date(&self) -> Date {
+        self.dt.date
+    }
+    fn get_current_date_time(&self) -> DateTime {
+        self.dt
     }
 }
